@@ -334,12 +334,12 @@ impl Property for C15 {
     const ID: &'static str = "C15";
 
     fn rule() -> String {
-        "(i) proptest-generated directory specs with Ref columns (unsigned, and signed SRef, column bound, through Vow/Bound created before any entry is added, to the position of another entry of the same store): forward, backward and self references, chains, constant Ref columns (all rows reference one entry), sorted (1-3 keys) and unsorted stores, 0..600 entries and 2000..6000 entries (parallel sort and parallel index assignment). Oracle: model final positions (independent sort of the distinct keys): the value read back for a Ref column equals the final position of its target (real reader and independent decoder), and every Bound returned by add_entry reports the final position of its entry after finalisation. (ii) forests stored in a store sorted ON the reference itself (key = position of the parent, then a unique name; 1..120 nodes, chains and bushy trees, inserted parents-first, children-first or shuffled): the final order is a fixed point of the creator's re-sort loop, so the oracle is a validity predicate over what was stored: the identities form a permutation, every stored reference equals the final position of the parent, keys are strictly increasing, every Bound reports the final position, binary and linear lookup of (parent position, name) find the entry. Non-trivial = a sorted store in which at least one referenced entry moved from its insertion position; distinct by (graph classes, schema, size). (iii) trees whose roots carry a plain number in the reference column (plain and bound values mixed in one column); (iv) cross-store references: store A sorted on a unique key (1..30000 entries, inserted in order / reversed / shuffled), store B (sorted or not) with a column bound to entries of A (optionally only to entries inserted among the first 200), A added first: every value stored in B equals the final position in A of the entry it was bound to.".into()
+        "(i) proptest-generated directory specs with Ref columns (unsigned, and signed SRef, column bound, through Vow/Bound created before any entry is added, to the position of another entry of the same store): forward, backward and self references, chains, constant Ref columns (all rows reference one entry), sorted (1-3 keys) and unsorted stores, 0..600 entries and 2000..6000 entries (parallel sort and parallel index assignment). Oracle: model final positions (independent sort of the distinct keys): the value read back for a Ref column equals the final position of its target (real reader and independent decoder), and every Bound returned by add_entry reports the final position of its entry after finalisation. (ii) forests stored in a store sorted ON the reference itself (key = position of the parent, then a unique name; 1..120 nodes, chains and bushy trees, inserted parents-first, children-first or shuffled): the final order is a fixed point of the creator's re-sort loop, so the oracle is a validity predicate over what was stored: the identities form a permutation, every stored reference equals the final position of the parent, keys are strictly increasing, every Bound reports the final position, binary and linear lookup of (parent position, name) find the entry. Non-trivial = a sorted store in which at least one referenced entry moved from its insertion position; distinct by (graph classes, schema, size). (iii) trees whose roots carry a plain number in the reference column (plain and bound values mixed in one column); (iv) cross-store references: store A sorted on a unique key (1..30000 entries, inserted in order / reversed / shuffled), store B (sorted or not) with a column bound to entries of A (optionally only to entries inserted among the first 200), A added first: every value stored in B equals the final position in A of the entry it was bound to. A tree whose roots carry a plain number k > 0 need not have any order consistent with its own positions; the creator's loud refusal (Cannot sort entry store) is then accepted and counted (tree:refused-no-consistent-order), never with self-referring roots or roots carrying 0.".into()
     }
 
     fn cases(tier: Tier) -> u32 {
         match tier {
-            Tier::Quick => 3200,
+            Tier::Quick => 9600,
             Tier::Thorough => 250000,
         }
     }
@@ -434,7 +434,31 @@ impl C15 {
         let mut info = CaseInfo::new();
         let case = match case {
             C15Case::Tree(t) => {
-                run_tree(t, ctx, &mut info)?;
+                if matches!(t.root_plain, Some(k) if k > 0) {
+                    // Roots carrying a plain number k > 0 sort in the middle of the entries keyed by a
+                    // position: such a store need not have any order consistent with its own positions
+                    // (placing the roots moves their children, which moves the roots ...). The creator
+                    // then gives up loudly after 50 passes ("Cannot sort entry store"); nothing is stored
+                    // altered, so the property is not concerned. Only this refusal is accepted, and only
+                    // here: with self-referring roots or roots carrying 0 an order always exists.
+                    let r = std::panic::catch_unwind(std::panic::AssertUnwindSafe(|| run_tree(t, ctx, &mut info)));
+                    match r {
+                        Ok(r) => r?,
+                        Err(p) => {
+                            let msg = take_panic().unwrap_or_default();
+                            if msg.contains("Cannot sort entry store") {
+                                info.class("tree:refused-no-consistent-order");
+                                info.key = hash_str(&format!("tree|{:?}|{}", t.parents, t.order));
+                                return Ok(info);
+                            }
+                            // put the message back for run_guarded and let the panic through
+                            put_panic(msg);
+                            std::panic::resume_unwind(p);
+                        }
+                    }
+                } else {
+                    run_tree(t, ctx, &mut info)?;
+                }
                 info.nontrivial = info.classes.iter().any(|c| c == "referenced-entry-moved");
                 info.key = hash_str(&format!("tree|{:?}|{}", t.parents, t.order));
                 return Ok(info);
